@@ -408,7 +408,11 @@ def num_compare(op, a, b):
 
 
 def contains(it, container, item):
-    ok, k = const_of(item)
+    from .values import dict_key
+
+    ok, k = dict_key(item)
+    if isinstance(container, VDict) and container.obj.items is not None and not ok and k in container.obj.items:
+        return True
     if isinstance(container, VBound) and container.name == "keys_view":
         container = container.recv
     if isinstance(container, VDict):
@@ -470,9 +474,11 @@ def subscript(it, base, idx, node, for_store=False):
         u.index = idx
         return u
     if isinstance(base, VDict):
-        ok, k = const_of(idx)
+        from .values import dict_key
+
+        ok, k = dict_key(idx)
         d = base.obj
-        if d.items is not None and ok and k in d.items:
+        if d.items is not None and k in d.items:
             return d.items[k]
         if d.items is not None and ok and not d.extra_unknown:
             from .interp import RaiseEx
